@@ -136,6 +136,19 @@ pub fn name_string(sel: &NameSel) -> String {
     }
 }
 
+/// PSK location for `set_psk` (a usize): byte values 250..=255 stand for huge locations.
+pub fn psk_location(loc: u8) -> usize {
+    match loc {
+        250 => usize::MAX,
+        251 => usize::MAX - 1,
+        252 => 1usize << 32,
+        253 => 1usize << 63,
+        254 => 256,
+        255 => 65536,
+        x => x as usize,
+    }
+}
+
 /// NoiseParams built without the parser (public API: NoiseParams::new + public fields).
 pub fn hand_params(p: u8, mods: &[u8], suite: u8, name: &str) -> snow::params::NoiseParams {
     use snow::params::*;
@@ -453,7 +466,7 @@ pub fn execute(script: &Script) -> Result<Stats, Fail> {
                 let i = resolve(*w, &sides, true);
                 let key = expand(seed, 100 + *loc as u64, *len as usize);
                 if let Ep::Hs(h) = &mut sides[i].ep {
-                    if call("HandshakeState::set_psk", || h.set_psk(*loc as usize, &key))?.is_err() {
+                    if call("HandshakeState::set_psk", || h.set_psk(psk_location(*loc), &key))?.is_err() {
                         st.errs += 1;
                     }
                 }
@@ -608,7 +621,7 @@ pub fn op_strategy() -> impl Strategy<Value = Op> {
         8 => (who(), plen(), buf(), nonce_sel()).prop_map(|(w, plen, buf, nonce)| Op::Write { w, plen, buf, nonce }),
         8 => (who(), buf(), edit(), nonce_sel()).prop_map(|(w, buf, edit, nonce)| Op::ReadPeer { w, buf, edit, nonce }),
         2 => (who(), plen(), any::<u8>(), buf(), nonce_sel()).prop_map(|(w, len, fill, buf, nonce)| Op::ReadRaw { w, len, fill, buf, nonce }),
-        1 => (who(), any::<u8>(), prop_oneof![3 => Just(32u8), 1 => any::<u8>()]).prop_map(|(w, loc, len)| Op::SetPsk { w, loc: if loc % 3 == 0 { loc } else { loc % 12 }, len }),
+        1 => (who(), any::<u8>(), prop_oneof![3 => Just(32u8), 1 => any::<u8>()]).prop_map(|(w, loc, len)| Op::SetPsk { w, loc: if loc % 3 == 0 { loc } else if loc % 7 == 1 { 250 + loc % 6 } else { loc % 12 }, len }),
         1 => who().prop_map(|w| Op::Query { w }),
         3 => (who(), any::<bool>()).prop_map(|(w, stateless)| Op::Convert { w, stateless }),
         1 => (who(), 0u8..6, 0u8..3).prop_map(|(w, kind, key)| Op::Rekey { w, kind, key }),
